@@ -170,6 +170,7 @@ type Conn struct {
 	kfd  int // kernel end
 	seq  int
 	done chan struct{}
+	once sync.Once
 }
 
 func (k *Kernel) NewConn() *Conn {
@@ -190,10 +191,20 @@ func (k *Kernel) NewConn() *Conn {
 }
 
 func (c *Conn) Fd() int { return c.fd }
+// Close is idempotent (a descriptor number must never be closed twice: the second close would hit whoever owns
+// the number by then), and the kernel end is closed only after the serving goroutine has left its read: a
+// goroutine still blocked in read(kfd) when the number is reused by the next world's socketpair would consume
+// that world's requests and answer them from this (dead) kernel's state.
 func (c *Conn) Close() {
-	syscall.Close(c.fd)
-	syscall.Shutdown(c.kfd, syscall.SHUT_RDWR)
-	syscall.Close(c.kfd)
+	c.once.Do(func() {
+		syscall.Close(c.fd)
+		syscall.Shutdown(c.kfd, syscall.SHUT_RDWR)
+		select {
+		case <-c.done:
+		case <-time.After(5 * time.Second):
+		}
+		syscall.Close(c.kfd)
+	})
 }
 func (c *Conn) Read(b []byte) (int, error) {
 	n, _, err := syscall.Recvfrom(c.fd, b, 0)
